@@ -59,7 +59,17 @@ class KeyDomain(DefaultDomain):
             return "yes"
         return "maybe"
 
+    _busy = False
+
     def exec_hook(self, interp, s, st, fr):
+        if isinstance(s, ast.Assign) and len(s.targets) == 1 and isinstance(s.targets[0], ast.Name) and not self._busy:
+            # remember which assignment defined each local (part of a finding's identity)
+            self._busy = True
+            try:
+                outs = interp.exec(s, st, fr)
+            finally:
+                self._busy = False
+            return [(k, p_, (s2.set("def:" + s.targets[0].id, norm(s)) if k == "next" else s2)) for k, p_, s2 in outs]
         if isinstance(s, ast.Return) and isinstance(s.value, ast.List) and fr.depth == 0:
             out = []
             for e in s.value.elts:
@@ -118,7 +128,8 @@ def run(ctx):
     for stmt, expr, value, state in dom.returns:
         key = (stmt.lineno, norm(expr), value == NONE or value == TOP and False)
         null = dom.is_none(value) != "F"
-        seen.setdefault((stmt.lineno, norm(expr), null), (stmt, expr, value))
+        origin = state.get("def:" + norm(expr), "") if isinstance(expr, ast.Name) else ""
+        seen.setdefault((stmt.lineno, norm(expr) + (f" (from `{origin}`)" if origin and null else ""), null), (stmt, expr, value))
     for (line, etxt, null), (stmt, expr, value) in sorted(seen.items()):
         ctx.check("R-SORTKEY-NONNULL", f"_flatten_tests: `{norm(stmt)[:50]}` key {etxt} is {'possibly None' if null else 'a test id'}", stmt, not null,
                   f"the sort key `{etxt}` can be None here (value {value}): an empty custom suite yields (None, suite) and sorted_tests' sort() raises TypeError "
